@@ -58,13 +58,13 @@ fn layout_meta(pool: &Pool, l: &Value, now: chrono::DateTime<chrono::Utc>, now_s
         let pubkeys: Vec<String> = s["pubkeys"].as_array().unwrap().iter().map(|k| keyid_of(pool, k)).collect();
         let v = json!({"_type":"step","name":s["name"],"threshold":s["threshold"],"expected_materials":s["expected_materials"],
                        "expected_products":s["expected_products"],"pubkeys":pubkeys,"expected_command":[]});
-        steps.push(serde_json::from_value(v).expect("step parses"));
+        steps.push(serde_json::from_str(&v.to_string()).expect("step parses"));
     }
     let mut insp: Vec<Inspection> = Vec::new();
     for s in l["inspect"].as_array().unwrap() {
         let v = json!({"_type":"inspection","name":s["name"],"expected_materials":s["expected_materials"],
                        "expected_products":s["expected_products"],"run":s["run"]});
-        insp.push(serde_json::from_value(v).expect("inspection parses"));
+        insp.push(serde_json::from_str(&v.to_string()).expect("inspection parses"));
     }
     let mut keys: HashMap<KeyId, PublicKey> = HashMap::new();
     for k in l["keys"].as_array().unwrap() {
